@@ -247,13 +247,16 @@ class EventDispatcher(metaclass=abc.ABCMeta):
             if not self.stopped:
                 raise
         finally:
-            # Cleanup should run to completion even if we get canceled while it is in progress.
+            # Cleanup should run to completion even if we get canceled, maybe more than once, while it is in progress.
             cleanup = asyncio.ensure_future(self._cleanup())
-            try:
-                await asyncio.shield(cleanup)
-            except asyncio.CancelledError:
-                await cleanup
-                raise
+            canceled = False
+            while not cleanup.done():
+                try:
+                    await asyncio.shield(cleanup)
+                except asyncio.CancelledError:
+                    canceled = True
+            if canceled:
+                raise asyncio.CancelledError()
 
     async def _cleanup(self):
         # Cancel any pending task in the event pool.
